@@ -20,12 +20,15 @@
  *     ws<sig>:<fl>:<cb>        tickit_watch_signal(sig)
  *     wp<fl>:<cb>              tickit_watch_process (a pid that is not a child)
  *     c<id>                    tickit_watch_cancel of watch number id if it is still live
+ *     s                        tickit_stop (C18)
  *     e<n>                     errno = n
  *     k<sig>                   raise(sig) if sig is currently watched (stays blocked)
  *     -                        nothing
  *   ops only:
  *     r<dt>                    clock += dt; tickit_tick(NOHANG|NOSETUP)
  *     o                        tickit_tick(NOSETUP): ppoll sleeps for the time-out asked
+ *     u<k>                     (C18) tickit_run: passes until a callback calls tickit_stop; the harness
+ *                              calls it itself from inside the k-th ppoll of the run
  *     R<fdi>:<revents>         descriptor fdi is ready with revents at the next ppoll
  *     K<sig>                   sig arrives while the next ppoll is waiting
  *     B<sig>                   (F cases) sig arrives right after the next read of the self-pipe's wakeup byte
@@ -72,6 +75,7 @@ static int fds[NFD];            /* read ends of pipes */
 static int ready[NFD];          /* scripted revents by harness descriptor number */
 static int inwait[8], ninwait;  /* signals arriving while ppoll waits */
 static int sleep_mode, quiet;
+static int run_mode, run_count, run_limit;   /* u<k>: tickit_run; the k-th ppoll of the run stops the loop */
 static char out[1 << 18];
 static size_t outn;
 
@@ -89,6 +93,10 @@ int __wrap_gettimeofday(struct timeval *tv, void *tz)
 int __wrap_ppoll(struct pollfd *pf, nfds_t n, const struct timespec *ts, const sigset_t *mask)
 {
   long msec = ts ? (long)(ts->tv_sec * 1000 + ts->tv_nsec / 1000000) : -1;
+  if(run_mode) {
+    if(run_count++) iter++;                 /* every pass of tickit_run is an iteration */
+    if(run_count >= run_limit) tickit_stop(T);
+  }
   OUT("p%ld ", msec);
   int count = 0;
   for(nfds_t i = 0; i < n; i++) {
@@ -209,6 +217,7 @@ static int do_act(const char *a)
     }
     return 1;
   }
+  if(a[0] == 's' && a[1] == 0) { tickit_stop(T); return 1; }
   if(a[0] == 'e') { errno = atoi(a + 1); return 1; }
   if(a[0] == 'k') { int s = atoi(a + 1); if(is_watched(s)) raise(s); return 1; }
   return 0;
@@ -295,7 +304,7 @@ static void loop_case(void)
 {
   size_t heap_before = __sanitizer_get_current_allocated_bytes();
   outn = 0; out[0] = 0;
-  nws = 0; vclock = 0; iter = 0; ninwait = 0; sleep_mode = 0;
+  nws = 0; vclock = 0; iter = 0; ninwait = 0; sleep_mode = 0; run_mode = 0;
   for(int i = 0; i < MAXCB; i++) cbs[i] = ubs[i] = NULL;
   for(int j = 0; j < NFD; j++) ready[j] = 0;
   int fallback = vh_ntok > 0 && strcmp(vh_tok[0], "F") == 0;
@@ -317,6 +326,12 @@ static void loop_case(void)
     else if(a[0] == 'o') {
       iter++; sleep_mode = 1;
       tickit_tick(T, TICKIT_RUN_NOSETUP);
+    }
+    else if(a[0] == 'u' && !fallback) {
+      iter++; sleep_mode = 1;
+      run_mode = 1; run_count = 0; run_limit = atoi(a + 1); if(run_limit < 1) run_limit = 1;
+      tickit_run(T);
+      run_mode = 0;
     }
     else if(a[0] == 'R') {
       int f = 0, rv = 0; sscanf(a + 1, "%d:%d", &f, &rv);
